@@ -16,7 +16,9 @@ RULE = (
     'increments exactly equal to threshold*step occur in dry spells and at '
     'the edges of rises) loaded twice: at t0 and at t0 + m*step (|m| from 1 '
     'to 10^6, so that epoch/3600 rounds differently), and once more with '
-    'the same wall-clock text declared in another fixed-offset zone. Each '
+    'the same wall-clock text declared in another fixed-offset zone (Etc/GMT+-k, '
+    'UTC, and geographic zones with a constant offset such as Africa/Lagos or '
+    'Asia/Kolkata). Each '
     'load goes through load, classify, set-zeta-grid, rise, recession. '
     'Oracle (metamorphic): every step succeeds or fails alike (same '
     'exception type); after subtracting the shift from every epoch column '
@@ -29,7 +31,21 @@ RULE = (
 ASSUMPTIONS = ['the harness renders the same record at both origins']
 
 FIXED_ZONES = ['UTC', 'Etc/GMT-7', 'Etc/GMT+5', 'Etc/GMT-12', 'Etc/GMT+11',
-               'Etc/GMT-1']
+               'Etc/GMT-1', 'Africa/Lagos', 'Asia/Brunei', 'Asia/Kolkata',
+               'Asia/Tokyo', 'America/Phoenix', 'Africa/Johannesburg']
+# geographic zones whose offset has been constant for decades (and over the
+# whole generated date range, 2013-2018): fixed-offset in effect, but their
+# tz database entries start with a local-mean-time era
+GEOGRAPHIC_OFFSETS = {'Africa/Lagos': 3600, 'Asia/Brunei': 8 * 3600,
+                      'Asia/Kolkata': 19800, 'Asia/Tokyo': 9 * 3600,
+                      'America/Phoenix': -7 * 3600,
+                      'Africa/Johannesburg': 2 * 3600}
+
+
+def zone_offset(name):
+    if name in GEOGRAPHIC_OFFSETS:
+        return GEOGRAPHIC_OFFSETS[name]
+    return fixed_offset_seconds(name)
 SHIFTS = [1, -1, 2, 3, 7, 40, -13, 1000, 99991, -250000, 1000000]
 FLOAT_TABLES = ('rising_interval', 'rising_interval_zeta',
                 'recession_interval', 'recession_interval_zeta')
@@ -125,8 +141,8 @@ def check(case):
     shifted['t0'] = case['t0'] + shift
     outcomes, dump = compare(case, shifted, shift, 'origin')
     # same wall-clock text declared in another fixed-offset zone
-    off1 = fixed_offset_seconds(case['tz'])
-    off2 = fixed_offset_seconds(case['tz2'])
+    off1 = zone_offset(case['tz'])
+    off2 = zone_offset(case['tz2'])
     rezoned = dict(case)
     rezoned['tz'] = case['tz2']
     rezoned['t0'] = case['t0'] + (off1 - off2)
